@@ -19,11 +19,15 @@ RULES = [
     (r"^BaseNode_GetMaxRetries$", "C19 C02"), (r"^BaseNode_GetWait$", "C19 C20"),
     (r"^BaseNode_GetBatchConcurrency$", "C19 C08"), (r"^BaseNode_GetBatchErrorHandling$", "C19 C09"),
     (r"^BatchNode_Post$", "C06 C18"), (r"^BatchNode_Prep$", "C06"), (r"^BatchNodeBuilder_(Prep|Exec|Post)$", "C06"),
-    (r"^BatchNodeBuilder_WithExecFunc", "C19 C17"), (r"^BatchNodeBuilder_With", "C19"), (r"^NewBatchNode$", "C19"),
+    (r"^BatchNodeBuilder_WithExecFunc", "C19 C17"), (r"^BatchNodeBuilder_WithWait$", "C19 C20"), (r"^BatchNodeBuilder_WithMaxRetries$", "C19 C02"),
+    (r"^BatchNodeBuilder_WithBatchConcurrency$", "C19 C08"), (r"^BatchNodeBuilder_WithBatchErrorHandling$", "C19 C09"), (r"^BatchNodeBuilder_With", "C19"), (r"^NewBatchNode$", "C19"),
     (r"^NodeBuilder_(Prep|Exec|Post)$", "C01 C17"), (r"^NodeBuilder_ExecFallback$", "C02 C17"),
-    (r"^NodeBuilder_Get", "C19 C02"), (r"^NodeBuilder_With(Prep|Exec|Post)Func", "C19 C17"), (r"^NodeBuilder_With", "C19"),
+    (r"^NodeBuilder_Get", "C19 C02"), (r"^NodeBuilder_With(Prep|Exec|Post)Func", "C19 C17"), (r"^NodeBuilder_WithWait$", "C19 C20"), (r"^NodeBuilder_WithMaxRetries$", "C19 C02"), (r"^NodeBuilder_With", "C19"),
     (r"^NewNode$", "C19 C17"), (r"^NewBaseNode$", "C19"), (r"^customNodeOption_apply$", "C19 C17"),
-    (r"^With(Prep|Exec|Post)Func", "C19 C17"), (r"^WithExecFallbackFunc$", "C19 C02"), (r"^With", "C19"),
+    (r"^With(Prep|Exec|Post)Func", "C19 C17"), (r"^WithExecFallbackFunc$", "C19 C02"),
+    # a setting function carries the property that reads the setting
+    (r"^WithWait$", "C19 C20"), (r"^WithMaxRetries$", "C19 C02"), (r"^WithBatchConcurrency$", "C19 C08"), (r"^WithBatchErrorHandling$", "C19 C09"),
+    (r"^With", "C19"),
     (r"^NewWorkerPool$", "C12 C08 C19"), (r"^WorkerPool_", "C12 C08"),
     (r"^(NewResult|R)$", "C17 C16 C15"), (r"^NewErrorResult$", "C17"), (r"^Result_(IsError|Value|Error)$", "C17 C15"),
     (r"^Result_(Bind|MustBind)$", "C16"), (r"^SharedStore_(Bind|MustBind)$", "C16"),
